@@ -7,8 +7,8 @@ VARIABLES cfg, st, g, last
 vars == <<cfg, st, g, last>>
 View == <<cfg, st, g>>
 
-Cfgs == [ov : BOOLEAN, cache : BOOLEAN, fset : BOOLEAN, fdel : BOOLEAN, host : {"plain", "unmanaged", "managed"}]
-Acts == {[op |-> "read"], [op |-> "delete"]} \cup {[op |-> "assign", v |-> v] : v \in {I(5), S("s")}}
+Cfgs == [ov : BOOLEAN, cache : BOOLEAN, fset : BOOLEAN, fdel : BOOLEAN, host : {"plain", "unmanaged", "managed", "items"}]
+Acts == {[op |-> "read"], [op |-> "delete"]} \cup {[op |-> "assign", v |-> v] : v \in {I(5), S("s"), PN}}
         \cup {[op |-> "under", u |-> u] : u \in 0..2}
 
 Init == /\ cfg \in Cfgs /\ st = [entry |-> N, under |-> 0, backing |-> N] /\ g = [ov |-> N, ca |-> N]
@@ -26,7 +26,7 @@ PropPriority == [][last'.a.op = "read" => LET p == Priority(cfg, g, st.under) IN
 PropAssign == [][last'.a.op = "assign" /\ Conf(cfg, Prep(cfg, last'.a.v)) =>
                     IF MayAssign(cfg) THEN last'.res = "ok" ELSE last'.res = "AttributeError" /\ st' = st]_vars
 PropDelete == [][last'.a.op = "delete" => IF MustRaiseOnDelete(cfg, g) THEN last'.res = "AttributeError" /\ st' = st ELSE last'.res = "ok"]_vars
-PropTyped == [][(last'.res \in {"TypeError", "ValueError"} => st' = st) /\ (cfg.host = "managed" /\ st'.entry # N => st'.entry.t = "int")]_vars
+PropTyped == [][(last'.res \in {"TypeError", "ValueError"} => st' = st) /\ (Managed(cfg) /\ st'.entry # N => st'.entry.t \in {"int", "elist"})]_vars
 
 ASSUME IF "VERIF_ACTS" \in DOMAIN IOEnv THEN JsonSerialize(IOEnv.VERIF_ACTS, SetToSeq(Acts)) ELSE TRUE
 =============================================================================
